@@ -136,9 +136,12 @@ def symbolic_unit(arg):
     if thorough:
         shapes['Rab'] = R2((cs[0], cs[1])) & B
     out = dict(logic=name, paths=0, decisions=0, queries=0, bad=[], inexhausted=[], samples=[])
-    W = 2 if S.modal else 1
+    W0 = 2 if S.modal else 1
     for sname, s in shapes.items():
         K = 2 if (s.predicates or s.quantifiers) else 1
+        # a binary predicate over two constants has four tuples per world: one world only in the
+        # many-valued modal logics (|values|^(4 tuples x worlds) classes otherwise)
+        W = 1 if (sname == 'Rab' and S.modal and S.n > 2) else W0
         I = Interp(S, 'impl', W=W + 1, K=K)
         c08.build_model(logic, S, I, s, W, K)
         ex = Explorer([c for c in I.cons if 'R_' not in str(c)], max_paths=80000, max_seconds=budget)
@@ -255,7 +258,8 @@ def run(ctx):
     rep.coverage = dict(
         states=paths, transitions=trans, traces_validated_against_impl=models, samples=samples[:4],
         branch_models_checked=models,
-        bounds=dict(worlds=2, constants=2, content='letters, a monadic predicate, an uninterpreted sentence',
+        bounds=dict(worlds=2, constants=2, content='letters, a monadic predicate, an uninterpreted sentence; thorough: a binary predicate '
+                                                   'over two constants (one world in the many-valued modal logics)',
                     branch_models='25 arguments per logic (quick) / all family arguments'),
         solver=dict(queries=queries),
         functions_executed=['BaseModel.get_data', 'Frame.get_data/_get_sentencemap_data/_get_predicates_data',
@@ -284,6 +288,8 @@ def replay(data):
     wit = data['witness']
     vals = logic.Meta.values
     W = 2 if S.modal else 1
+    if data['shape'] == 'Rab' and S.modal and S.n > 2:
+        W = 1
     K = 2 if (s.predicates or s.quantifiers) else 1
     m = logic.Model()
 
